@@ -19,6 +19,7 @@ import (
 	"encoding/binary"
 	"errors"
 	"fmt"
+	"os"
 	"sort"
 	"strings"
 	"sync"
@@ -34,6 +35,7 @@ import (
 	"github.com/lightningnetwork/lnd/lntypes"
 	"github.com/lightningnetwork/lnd/lnwallet"
 	"github.com/lightningnetwork/lnd/lnwire"
+	"github.com/lightningnetwork/lnd/ticker"
 	"pgregory.net/rapid"
 )
 
@@ -289,6 +291,7 @@ type c08Run struct {
 	restartHits  []int
 	inconclusive string
 	deadline     time.Duration
+	grace        time.Duration
 	idleGap      time.Duration
 
 	startBal [4]lnwire.MilliSatoshi // a2b, b2a, b2c, c2b local balances
@@ -650,6 +653,7 @@ func (r *c08Run) runPhase(ph int) bool {
 			r.inconclusive = "launch: " + err.Error()
 			return false
 		}
+		r.tap.touch()
 	}
 
 	return true
@@ -758,6 +762,27 @@ func (r *c08Run) run() []string {
 			return nil
 		}
 		time.Sleep(5 * time.Millisecond)
+	}
+
+	// Settle-down: the switch acknowledges settles lazily (batch on the
+	// AckEventTicker) and the late, ref-carrying copy of a settle travels
+	// on a goroutine of its own; flush and poll for a bounded time. What
+	// is still open afterwards is reported by the oracle.
+	live := [4]*lnwallet.LightningChannel{
+		r.n.aliceChannelLink.channel, r.n.firstBobChannelLink.channel,
+		r.n.secondBobChannelLink.channel, r.n.carolChannelLink.channel,
+	}
+	until = time.Now().Add(r.grace)
+	for {
+		for _, s := range []*mockServer{
+			r.n.aliceServer, r.n.bobServer, r.n.carolServer,
+		} {
+			c08ForceAck(s.htlcSwitch)
+		}
+		if len(c08FwdPkgIssues(live)) == 0 || time.Now().After(until) {
+			break
+		}
+		time.Sleep(20 * time.Millisecond)
 	}
 
 	stopped := r.n
@@ -990,6 +1015,21 @@ func (r *c08Run) oracle(stopped *threeHopNetwork) []string {
 
 	// (E) no forwarding package left with unacked adds or
 	// unacknowledged settles/fails.
+	bad = append(bad, c08FwdPkgIssues(chans)...)
+
+	// (F) wire-level rules for the forwarder.
+	bad = append(bad, c08TapOracle(r.tap.events())...)
+
+	return bad
+}
+
+// c08FwdPkgIssues lists forwarding packages that still wait for something.
+func c08FwdPkgIssues(chans [4]*lnwallet.LightningChannel) []string {
+	var bad []string
+	fail := func(f string, a ...any) {
+		bad = append(bad, fmt.Sprintf(f, a...))
+	}
+	names := [4]string{"alice(ab)", "bob(ab)", "bob(bc)", "carol(bc)"}
 	for i, c := range chans {
 		pkgs, err := c.LoadFwdPkgs()
 		if err != nil {
@@ -1019,10 +1059,28 @@ func (r *c08Run) oracle(stopped *threeHopNetwork) []string {
 		}
 	}
 
-	// (F) wire-level rules for the forwarder.
-	bad = append(bad, c08TapOracle(r.tap.events())...)
-
 	return bad
+}
+
+// c08ForceAck makes the switch flush its batch of settle/fail acks now
+// instead of at the next AckEventTicker tick (15 s). Two ticks: when the
+// second is taken the first has been handled.
+func c08ForceAck(sw *Switch) bool {
+	f, ok := sw.cfg.AckEventTicker.(*ticker.Force)
+	if !ok {
+		return false
+	}
+	for i := 0; i < 2; i++ {
+		select {
+		case f.Force <- time.Now():
+		case <-time.After(10 * time.Second):
+			return false
+		case <-sw.quit:
+			return false
+		}
+	}
+
+	return true
 }
 
 // c08TapOracle checks Bob's behaviour on the tapped log. Events are logged
@@ -1256,6 +1314,9 @@ func c08RunCase(t *testing.T, plan *c08Plan) *c08Result {
 		idleGap: time.Duration(
 			vstats.EnvInt("VERIF_C08_IDLE_MS", 150),
 		) * time.Millisecond,
+		grace: time.Duration(
+			vstats.EnvInt("VERIF_C08_GRACE_S", 30),
+		) * time.Second,
 	}
 	for i := range plan.Pays {
 		p := &c08Pay{plan: &plan.Pays[i], ix: i, pid: uint64(1000 + i)}
@@ -1347,6 +1408,26 @@ func c08RunCase(t *testing.T, plan *c08Plan) *c08Result {
 		}
 	}
 	res.labels = lab
+	if vstats.EnvInt("VERIF_C08_DEBUG", 0) > 0 {
+		fmt.Fprintf(os.Stderr, "---- case\n%s", plan.String())
+		for _, p := range r.pays {
+			o, _ := p.get()
+			fmt.Fprintf(os.Stderr, "  pay%d -> %s %s\n", p.ix,
+				c08OutcomeNames[o], p.failMsg)
+		}
+		fmt.Fprintf(os.Stderr, "  linkfails=%v inflight=%v cuts=%d "+
+			"msgs=%d inconclusive=%q bad=%v\n", r.linkFailList(),
+			r.restartHits, cutsFired, len(r.tap.events()),
+			res.inconclusive, res.bad)
+		if vstats.EnvInt("VERIF_C08_DEBUG", 0) > 1 {
+			for _, e := range r.tap.events() {
+				fmt.Fprintf(os.Stderr, "    #%d ph%d %s %s id=%d "+
+					"h=%x drop=%v\n", e.seq, e.phase,
+					c08EdgeNames[e.edge], c08KindNames[e.kind],
+					e.id, e.hash[:2], e.dropped)
+			}
+		}
+	}
 	outs := make([]string, len(r.pays))
 	for i, p := range r.pays {
 		o, _ := p.get()
